@@ -61,7 +61,7 @@ fn gen_char(rng: &mut Rng) -> char {
   }
 }
 fn gen_string(rng: &mut Rng) -> String {
-  let n = match rng.below(20) { 0..=3 => 0, 4..=13 => rng.range(1, 8), 14..=17 => rng.range(9, 40), 18 => rng.range(100, 400), _ => rng.range(1000, 6000) };
+  let n = match rng.below(40) { 0..=7 => 0, 8..=27 => rng.range(1, 8), 28..=36 => rng.range(9, 40), 37..=38 => rng.range(100, 400), _ => rng.range(1000, 6000) };
   (0..n).map(|_| gen_char(rng)).collect()
 }
 const CORE_KEYS: [&str; 9] = ["timestamp", "level", "target", "message", "name", "span_id", "parent_id", "thread_id", "thread_name"];
@@ -324,9 +324,9 @@ fn gen_pattern(rng: &mut Rng, field_keys: &[String]) -> String {
       }
       _ => {
         p.push('%');
-        let pad: &str = *rng.weighted(&[(30u32, ""), (6, "5"), (6, "-5"), (4, "0"), (4, "-0"), (4, "1"), (4, "20"), (4, "-12"), (2, "007"), (2, "300"), (2, "65535"), (2, "-65535"),
-          (2, "65536"), (2, "-65536"), (1, "70000"), (1, "2147483647"), (1, "-2147483647"), (1, "2147483648"), (2, "-2147483648"), (1, "-2147483649"),
-          (1, "99999999999999999999"), (1, "\u{663}"), (1, "1\u{ff11}"), (1, "-")]);
+        let pad: &str = *rng.weighted(&[(120u32, ""), (24, "5"), (24, "-5"), (16, "0"), (16, "-0"), (16, "1"), (16, "20"), (16, "-12"), (8, "007"), (8, "300"), (2, "65535"), (2, "-65535"),
+          (2, "65536"), (2, "-65536"), (1, "70000"), (1, "2147483647"), (1, "-2147483647"), (4, "2147483648"), (2, "-2147483648"), (4, "-2147483649"),
+          (4, "99999999999999999999"), (4, "\u{663}"), (4, "1\u{ff11}"), (4, "-")]);
         p.push_str(pad);
         let conv = *rng.weighted(&[(20u32, 'm'), (8, 'p'), (4, 'l'), (8, 't'), (6, 'T'), (6, 'n'), (8, 'X'), (8, 'd'), (2, 'q'), (1, 'Z'), (1, 'M'), (1, '1'), (1, '%')]);
         p.push(conv);
